@@ -27,6 +27,9 @@ import DPL.Proofs.ToolsSens
 import DPL.Proofs.ToolsHist
 import DPL.Proofs.ToolsQuantile
 import DPL.Proofs.ToolsNanAxis
+import DPL.Proofs.ToolsCompose
+import DPL.Proofs.ToolsCompose2
+import DPL.Proofs.ToolsComposeGeom
 
 namespace DPL.C07
 open DPL DPL.Tools
@@ -556,5 +559,341 @@ example : PrivLossOk ((wrapAxis none 1 1 (fun _ => ((0 : ℝ), (1 : ℝ))) (nanm
   have := nanmean_axis_privloss_partial 1 (by norm_num) 1 (by norm_num) (fun _ => ((0 : ℝ), (1 : ℝ)))
     (by intro c; norm_num) [] [[1]] [0] [1] (by simp) [1 / 2] rfl
   simpa using this
+
+/-! ## tool_dp — the semantic step: the OUTPUT LAW of every tool is ε-DP
+
+`Plan.law M p D` is the law of the release when invocation `c` on input `a` draws from the measure `M c a` (C08's
+composition layer, `DPL/Proofs/ModelsCompose*.lean`); `PM.MetricDP P M`: on the invocations satisfying `P`, inputs
+within the configured sensitivity give laws within `exp(ε·|a−b|/sens)` on every measurable set.  The `…_privloss`
+theorems above bound the displacement-weighted loss along every forced-output sequence; here they are turned into
+`law D S ≤ e^ε · law D' S` for every measurable `S` — same neighbour relation (`pre ++ x :: post` vs
+`pre ++ y :: post`), same parameter region (`l ≤ u`, every `n ≥ 1`) except that `ε` must be positive.  Degenerate
+configurations (sensitivity 0: `l = u`, or `n = 1` for the variance) need no hypothesis: the input then does not move.
+
+The mechanism family `M` is a hypothesis: `PM.MetricDP` on invocations with positive ε and sensitivity for the
+Laplace-type tools; `Tools.CountDP` for the count tools (count_nonzero, histograms) — metric DP between INTEGER inputs
+of sensitivity-1 invocations, which is all a lattice mechanism can satisfy and is implied by `PM.MetricDP`
+(`count_dp_of_metric_dp`).  Discharged: `LaplaceTruncated` by `PM.truncLapKernel` (the clamped Laplace law — mean, sum
+and their axis variants: the `…_laplace` theorems) and `GeometricTruncated` (sensitivity 1) by `PM.geomKernel`
+(`ModelsCompose7.lean`, from C01's `geom_post_dp` — count_nonzero, histograms: the `…_geometric` theorems).
+No kernel is constructed for `LaplaceBoundedDomain` (var, std) and for `GeometricTruncated` with sensitivity
+`int(u) − int(l) ≠ 1` (integer sum): for those tools `MetricDP M` stays a hypothesis. -/
+
+section ToolDP
+open MeasureTheory
+open scoped DPL.PM
+
+/-- the hypothesis on `M` is satisfiable: the (clamped) Laplace families are metric-DP families of probability laws -/
+example : ∃ M : MechCall ℝ → ℝ → Measure ℝ,
+    PM.MetricDP (fun c => 0 < c.eps ∧ 0 < c.sens) M ∧ ∀ c a, IsProbabilityMeasure (M c a) :=
+  ⟨PM.truncLapKernel, PM.truncLapKernel_metricDP, PM.truncLapKernel_isProb⟩
+
+/-- **`mean` is ε-DP** -/
+theorem mean_tool_dp (ε l u : ℝ) (hε : 0 < ε) (h : l ≤ u) (pre post : List ℝ) (x y : ℝ)
+    (M : MechCall ℝ → ℝ → Measure ℝ) (hM : PM.MetricDP (fun c => 0 < c.eps ∧ 0 < c.sens) M)
+    (S : Set ℝ) (hS : MeasurableSet S) :
+    (meanPlan (pre ++ x :: post).length ε l u).law M (pre ++ x :: post) S ≤
+      ENNReal.ofReal (Real.exp ε) * (meanPlan (pre ++ x :: post).length ε l u).law M (pre ++ y :: post) S :=
+  Tools.oneCall_dp M hM _ _ id measurable_id _ _ hε (Tools.mean_sens h pre post x y) S hS
+
+/-- … with the draw from the clamped Laplace law `LaplaceTruncated` uses: no hypothesis on the mechanism left -/
+theorem mean_tool_dp_laplace (ε l u : ℝ) (hε : 0 < ε) (h : l ≤ u) (pre post : List ℝ) (x y : ℝ)
+    (S : Set ℝ) (hS : MeasurableSet S) :
+    (meanPlan (pre ++ x :: post).length ε l u).law PM.truncLapKernel (pre ++ x :: post) S ≤
+      ENNReal.ofReal (Real.exp ε) *
+        (meanPlan (pre ++ x :: post).length ε l u).law PM.truncLapKernel (pre ++ y :: post) S :=
+  mean_tool_dp ε l u hε h pre post x y _ PM.truncLapKernel_metricDP S hS
+
+/-- non-vacuity: ε = 1, bounds (0, 1), two records, corner-to-corner replacement -/
+example (S : Set ℝ) (hS : MeasurableSet S) :
+    (meanPlan 2 1 0 1).law PM.truncLapKernel [0, 1] S ≤
+      ENNReal.ofReal (Real.exp 1) * (meanPlan 2 1 0 1).law PM.truncLapKernel [1, 1] S := by
+  have := mean_tool_dp_laplace 1 0 1 (by norm_num) (by norm_num) [] [1] 0 1 S hS
+  simpa using this
+
+/-- **`sum` is ε-DP** -/
+theorem sum_tool_dp (ε l u : ℝ) (hε : 0 < ε) (h : l ≤ u) (pre post : List ℝ) (x y : ℝ)
+    (M : MechCall ℝ → ℝ → Measure ℝ) (hM : PM.MetricDP (fun c => 0 < c.eps ∧ 0 < c.sens) M)
+    (S : Set ℝ) (hS : MeasurableSet S) :
+    (sumPlan (pre ++ x :: post).length ε l u).law M (pre ++ x :: post) S ≤
+      ENNReal.ofReal (Real.exp ε) * (sumPlan (pre ++ x :: post).length ε l u).law M (pre ++ y :: post) S :=
+  Tools.oneCall_dp M hM _ _ id measurable_id _ _ hε (Tools.sum_sens h pre post x y) S hS
+
+theorem sum_tool_dp_laplace (ε l u : ℝ) (hε : 0 < ε) (h : l ≤ u) (pre post : List ℝ) (x y : ℝ)
+    (S : Set ℝ) (hS : MeasurableSet S) :
+    (sumPlan (pre ++ x :: post).length ε l u).law PM.truncLapKernel (pre ++ x :: post) S ≤
+      ENNReal.ofReal (Real.exp ε) *
+        (sumPlan (pre ++ x :: post).length ε l u).law PM.truncLapKernel (pre ++ y :: post) S :=
+  sum_tool_dp ε l u hε h pre post x y _ PM.truncLapKernel_metricDP S hS
+
+/-- **`var` is ε-DP** (`M` metric-DP: a hypothesis for `LaplaceBoundedDomain`) -/
+theorem var_tool_dp (ε l u : ℝ) (hε : 0 < ε) (h : l ≤ u) (pre post : List ℝ) (x y : ℝ)
+    (M : MechCall ℝ → ℝ → Measure ℝ) (hM : PM.MetricDP (fun c => 0 < c.eps ∧ 0 < c.sens) M)
+    (S : Set ℝ) (hS : MeasurableSet S) :
+    (varPlan (pre ++ x :: post).length ε l u).law M (pre ++ x :: post) S ≤
+      ENNReal.ofReal (Real.exp ε) * (varPlan (pre ++ x :: post).length ε l u).law M (pre ++ y :: post) S :=
+  Tools.oneCall_dp M hM _ _ id measurable_id _ _ hε (Tools.var_sens h pre post x y) S hS
+
+/-- **`std` is ε-DP**: `np.sqrt` of `var`'s release is measurable post-processing -/
+theorem std_tool_dp (ε l u : ℝ) (hε : 0 < ε) (h : l ≤ u) (pre post : List ℝ) (x y : ℝ)
+    (M : MechCall ℝ → ℝ → Measure ℝ) (hM : PM.MetricDP (fun c => 0 < c.eps ∧ 0 < c.sens) M)
+    (S : Set ℝ) (hS : MeasurableSet S) :
+    (stdPlan (pre ++ x :: post).length ε l u).law M (pre ++ x :: post) S ≤
+      ENNReal.ofReal (Real.exp ε) * (stdPlan (pre ++ x :: post).length ε l u).law M (pre ++ y :: post) S := by
+  unfold stdPlan varPlan
+  rw [single_eq_oneCall, map_oneCall]
+  exact Tools.oneCall_dp M hM _ _ _ Tools.measurable_sqrt _ _ hε (Tools.var_sens h pre post x y) S hS
+
+/-- the count hypothesis is weaker than the input-blind one -/
+theorem count_dp_of_metric_dp (M : MechCall ℝ → ℝ → Measure ℝ)
+    (hM : PM.MetricDP (fun c => 0 < c.eps ∧ 0 < c.sens) M) : Tools.CountDP M :=
+  Tools.countDP_of_metricDP M hM
+
+/-- … and satisfiable: the geometric kernel (C01: `geom_post_dp`) -/
+example : ∃ M : MechCall ℝ → ℝ → Measure ℝ, Tools.CountDP M ∧ ∀ c a, IsProbabilityMeasure (M c a) :=
+  ⟨PM.geomKernel, Tools.geomKernel_countDP, PM.geomKernel_isProb⟩
+
+/-- **`count_nonzero` is ε-DP** for every count mechanism (`Tools.CountDP`: metric DP between integer inputs) -/
+theorem count_tool_dp (ε : ℝ) (hε : 0 < ε) (pre post : List ℝ) (x y : ℝ)
+    (M : MechCall ℝ → ℝ → Measure ℝ) (hM : Tools.CountDP M) (S : Set ℝ) (hS : MeasurableSet S) :
+    (countNonzeroPlan (pre ++ x :: post).length ε).law M (pre ++ x :: post) S ≤
+      ENNReal.ofReal (Real.exp ε) * (countNonzeroPlan (pre ++ x :: post).length ε).law M (pre ++ y :: post) S :=
+  Tools.oneCall_dp_count M hM _ _ id measurable_id _ _ hε (by norm_num) (Tools.count_int _) (Tools.count_int _)
+    (Tools.count_sens pre post x y) S hS
+
+/-- … with the geometric kernel: no hypothesis on the mechanism left -/
+theorem count_tool_dp_geometric (ε : ℝ) (hε : 0 < ε) (pre post : List ℝ) (x y : ℝ) (S : Set ℝ)
+    (hS : MeasurableSet S) :
+    (countNonzeroPlan (pre ++ x :: post).length ε).law PM.geomKernel (pre ++ x :: post) S ≤
+      ENNReal.ofReal (Real.exp ε) *
+        (countNonzeroPlan (pre ++ x :: post).length ε).law PM.geomKernel (pre ++ y :: post) S :=
+  count_tool_dp ε hε pre post x y _ Tools.geomKernel_countDP S hS
+
+/-- non-vacuity: a zero entry replaced by a non-zero one -/
+example (S : Set ℝ) (hS : MeasurableSet S) :
+    (countNonzeroPlan 2 1).law PM.geomKernel [0, 3] S ≤
+      ENNReal.ofReal (Real.exp 1) * (countNonzeroPlan 2 1).law PM.geomKernel [5, 3] S := by
+  have := count_tool_dp_geometric 1 (by norm_num) [] [3] 0 5 S hS
+  simpa using this
+
+/-- **`sum(dtype=int)` is ε-DP** given an input-blind metric-DP family `M`.  Caveat: the code uses
+`GeometricTruncated` with sensitivity `int(u) − int(l)`; a lattice mechanism is metric-DP between integer inputs only
+(the inputs here ARE integers), and no such kernel is constructed for sensitivity ≠ 1 — the integer-input refinement
+(`Tools.CountDP` for general sensitivity) is not done for this tool -/
+theorem intsum_tool_dp (ε l u : ℝ) (hε : 0 < ε) (h : l ≤ u) (pre post : List ℝ) (x y : ℝ)
+    (M : MechCall ℝ → ℝ → Measure ℝ) (hM : PM.MetricDP (fun c => 0 < c.eps ∧ 0 < c.sens) M)
+    (S : Set ℝ) (hS : MeasurableSet S) :
+    (intSumPlan (pre ++ x :: post).length ε l u (truncv l) (truncv u)).law M (pre ++ x :: post) S ≤
+      ENNReal.ofReal (Real.exp ε) *
+        (intSumPlan (pre ++ x :: post).length ε l u (truncv l) (truncv u)).law M (pre ++ y :: post) S :=
+  Tools.oneCall_dp M hM _ _ id measurable_id _ _ hε (Tools.intsum_sens h pre post x y) S hS
+
+/-- non-vacuity of the degenerate region the theorems cover: `l = u` and `n = 1` (sensitivity 0) -/
+example (S : Set ℝ) (hS : MeasurableSet S) (M : MechCall ℝ → ℝ → Measure ℝ)
+    (hM : PM.MetricDP (fun c => 0 < c.eps ∧ 0 < c.sens) M) :
+    (varPlan 1 1 2 2).law M [5] S ≤ ENNReal.ofReal (Real.exp 1) * (varPlan 1 1 2 2).law M [7] S := by
+  have := var_tool_dp 1 2 2 (by norm_num) (le_refl _) [] [] 5 7 M hM S hS
+  simpa using this
+
+/-! ### `_wrap_axis`: the whole vector of per-cell releases is ε-DP (release space `List ℝ`, σ-algebra generated by
+the length and the coordinates, `PM.listMS`) -/
+
+/-- **`_wrap_axis` over any one-invocation cell plan is ε-DP as a whole**: every cell configured with `ε/size` and a
+sensitivity that bounds the displacement of the cell's input between the two matrices; `g` = the cell's (measurable)
+post-processing -/
+theorem wrap_axis_tool_dp {β : Type} (dflt : β) (size : Nat) (hsize : 0 < size) (ε : ℝ) (hε : 0 < ε)
+    (bounds : Nat → ℝ × ℝ) (cell : (ε l u : ℝ) → Plan (List β) ℝ ℝ) (mk : (l u : ℝ) → Cell (List β) ℝ ℝ)
+    (hcell : ∀ l u, cell (ε / (size : ℝ)) l u = (mk l u).plan)
+    (heps : ∀ l u, (mk l u).c.eps = ε / (size : ℝ)) (hg : ∀ l u, Measurable (mk l u).g)
+    (D D' : List (List β))
+    (hsens : ∀ c, c < size →
+      |(mk (bounds c).1 (bounds c).2).inp (column dflt c D) - (mk (bounds c).1 (bounds c).2).inp (column dflt c D')| ≤
+        (mk (bounds c).1 (bounds c).2).c.sens)
+    (M : MechCall ℝ → ℝ → Measure ℝ) (hprob : ∀ c a, IsProbabilityMeasure (M c a))
+    (hM : PM.MetricDP (fun c => 0 < c.eps ∧ 0 < c.sens) M) (S : Set (List ℝ)) (hS : MeasurableSet S) :
+    (wrapAxis dflt size ε bounds cell).law M D S ≤
+      ENNReal.ofReal (Real.exp ε) * (wrapAxis dflt size ε bounds cell).law M D' S :=
+  Tools.wrapAxis_dp dflt size hsize ε hε bounds cell mk hcell heps hg D D' hsens M hprob hM S hS
+
+/-- **`mean(…, axis=…)` is ε-DP**: every number of cells, per-cell bounds, every number of records -/
+theorem mean_axis_tool_dp (size : Nat) (hsize : 0 < size) (ε : ℝ) (hε : 0 < ε) (bounds : Nat → ℝ × ℝ)
+    (hb : ∀ c, (bounds c).1 ≤ (bounds c).2) (pre post : List (List ℝ)) (r r' : List ℝ)
+    (M : MechCall ℝ → ℝ → Measure ℝ) (hprob : ∀ c a, IsProbabilityMeasure (M c a))
+    (hM : PM.MetricDP (fun c => 0 < c.eps ∧ 0 < c.sens) M) (S : Set (List ℝ)) (hS : MeasurableSet S) :
+    (wrapAxis 0 size ε bounds (meanPlan (pre ++ r :: post).length)).law M (pre ++ r :: post) S ≤
+      ENNReal.ofReal (Real.exp ε) *
+        (wrapAxis 0 size ε bounds (meanPlan (pre ++ r :: post).length)).law M (pre ++ r' :: post) S := by
+  apply Tools.wrapAxis_dp 0 size hsize ε hε bounds _
+    (fun l u => ⟨⟨"LaplaceTruncated", ε / (size : ℝ), 0, (u - l) / ((pre ++ r :: post).length : ℝ), l, u, .osCsprng⟩,
+      fun D => mean (D.map (clip l u)), id⟩)
+    (fun l u => rfl) (fun l u => rfl) (fun l u => measurable_id) _ _ _ M hprob hM S hS
+  intro c _
+  simp only [column_replace]
+  have := Tools.mean_sens (hb c) (column 0 c pre) (column 0 c post) (r.getD c 0) (r'.getD c 0)
+  simpa [column_length] using this
+
+theorem mean_axis_tool_dp_laplace (size : Nat) (hsize : 0 < size) (ε : ℝ) (hε : 0 < ε) (bounds : Nat → ℝ × ℝ)
+    (hb : ∀ c, (bounds c).1 ≤ (bounds c).2) (pre post : List (List ℝ)) (r r' : List ℝ)
+    (S : Set (List ℝ)) (hS : MeasurableSet S) :
+    (wrapAxis 0 size ε bounds (meanPlan (pre ++ r :: post).length)).law PM.truncLapKernel (pre ++ r :: post) S ≤
+      ENNReal.ofReal (Real.exp ε) *
+        (wrapAxis 0 size ε bounds (meanPlan (pre ++ r :: post).length)).law PM.truncLapKernel (pre ++ r' :: post) S :=
+  mean_axis_tool_dp size hsize ε hε bounds hb pre post r r' _ PM.truncLapKernel_isProb PM.truncLapKernel_metricDP S hS
+
+/-- non-vacuity: two cells with different bounds, two records -/
+example (S : Set (List ℝ)) (hS : MeasurableSet S) :
+    (wrapAxis 0 2 1 (fun c => ((0 : ℝ), (c : ℝ) + 1)) (meanPlan 2)).law PM.truncLapKernel [[0, 0], [1, 2]] S ≤
+      ENNReal.ofReal (Real.exp 1) *
+        (wrapAxis 0 2 1 (fun c => ((0 : ℝ), (c : ℝ) + 1)) (meanPlan 2)).law PM.truncLapKernel [[1, 2], [1, 2]] S := by
+  have := mean_axis_tool_dp_laplace 2 (by norm_num) 1 (by norm_num) (fun c => ((0 : ℝ), (c : ℝ) + 1))
+    (by intro c; simp; positivity) [] [[1, 2]] [0, 0] [1, 2] S hS
+  simpa using this
+
+theorem sum_axis_tool_dp (size : Nat) (hsize : 0 < size) (ε : ℝ) (hε : 0 < ε) (bounds : Nat → ℝ × ℝ)
+    (hb : ∀ c, (bounds c).1 ≤ (bounds c).2) (pre post : List (List ℝ)) (r r' : List ℝ)
+    (M : MechCall ℝ → ℝ → Measure ℝ) (hprob : ∀ c a, IsProbabilityMeasure (M c a))
+    (hM : PM.MetricDP (fun c => 0 < c.eps ∧ 0 < c.sens) M) (S : Set (List ℝ)) (hS : MeasurableSet S) :
+    (wrapAxis 0 size ε bounds (sumPlan (pre ++ r :: post).length)).law M (pre ++ r :: post) S ≤
+      ENNReal.ofReal (Real.exp ε) *
+        (wrapAxis 0 size ε bounds (sumPlan (pre ++ r :: post).length)).law M (pre ++ r' :: post) S := by
+  apply Tools.wrapAxis_dp 0 size hsize ε hε bounds _
+    (fun l u => ⟨⟨"LaplaceTruncated", ε / (size : ℝ), 0, u - l, l * ((pre ++ r :: post).length : ℝ),
+      u * ((pre ++ r :: post).length : ℝ), .osCsprng⟩, fun D => Tools.sum (D.map (clip l u)), id⟩)
+    (fun l u => rfl) (fun l u => rfl) (fun l u => measurable_id) _ _ _ M hprob hM S hS
+  intro c _
+  simp only [column_replace]
+  exact Tools.sum_sens (hb c) _ _ _ _
+
+theorem sum_axis_tool_dp_laplace (size : Nat) (hsize : 0 < size) (ε : ℝ) (hε : 0 < ε) (bounds : Nat → ℝ × ℝ)
+    (hb : ∀ c, (bounds c).1 ≤ (bounds c).2) (pre post : List (List ℝ)) (r r' : List ℝ)
+    (S : Set (List ℝ)) (hS : MeasurableSet S) :
+    (wrapAxis 0 size ε bounds (sumPlan (pre ++ r :: post).length)).law PM.truncLapKernel (pre ++ r :: post) S ≤
+      ENNReal.ofReal (Real.exp ε) *
+        (wrapAxis 0 size ε bounds (sumPlan (pre ++ r :: post).length)).law PM.truncLapKernel (pre ++ r' :: post) S :=
+  sum_axis_tool_dp size hsize ε hε bounds hb pre post r r' _ PM.truncLapKernel_isProb PM.truncLapKernel_metricDP S hS
+
+theorem var_axis_tool_dp (size : Nat) (hsize : 0 < size) (ε : ℝ) (hε : 0 < ε) (bounds : Nat → ℝ × ℝ)
+    (hb : ∀ c, (bounds c).1 ≤ (bounds c).2) (pre post : List (List ℝ)) (r r' : List ℝ)
+    (M : MechCall ℝ → ℝ → Measure ℝ) (hprob : ∀ c a, IsProbabilityMeasure (M c a))
+    (hM : PM.MetricDP (fun c => 0 < c.eps ∧ 0 < c.sens) M) (S : Set (List ℝ)) (hS : MeasurableSet S) :
+    (wrapAxis 0 size ε bounds (varPlan (pre ++ r :: post).length)).law M (pre ++ r :: post) S ≤
+      ENNReal.ofReal (Real.exp ε) *
+        (wrapAxis 0 size ε bounds (varPlan (pre ++ r :: post).length)).law M (pre ++ r' :: post) S := by
+  apply Tools.wrapAxis_dp 0 size hsize ε hε bounds _
+    (fun l u => ⟨⟨"LaplaceBoundedDomain", ε / (size : ℝ), 0, varSens (pre ++ r :: post).length l u, 0,
+      ((u - l) * (u - l)) / 4, .osCsprng⟩, fun D => var (D.map (clip l u)), id⟩)
+    (fun l u => rfl) (fun l u => rfl) (fun l u => measurable_id) _ _ _ M hprob hM S hS
+  intro c _
+  simp only [column_replace]
+  have := Tools.var_sens (hb c) (column 0 c pre) (column 0 c post) (r.getD c 0) (r'.getD c 0)
+  simpa [column_length] using this
+
+theorem std_axis_tool_dp (size : Nat) (hsize : 0 < size) (ε : ℝ) (hε : 0 < ε) (bounds : Nat → ℝ × ℝ)
+    (hb : ∀ c, (bounds c).1 ≤ (bounds c).2) (pre post : List (List ℝ)) (r r' : List ℝ)
+    (M : MechCall ℝ → ℝ → Measure ℝ) (hprob : ∀ c a, IsProbabilityMeasure (M c a))
+    (hM : PM.MetricDP (fun c => 0 < c.eps ∧ 0 < c.sens) M) (S : Set (List ℝ)) (hS : MeasurableSet S) :
+    (wrapAxis 0 size ε bounds (stdPlan (pre ++ r :: post).length)).law M (pre ++ r :: post) S ≤
+      ENNReal.ofReal (Real.exp ε) *
+        (wrapAxis 0 size ε bounds (stdPlan (pre ++ r :: post).length)).law M (pre ++ r' :: post) S := by
+  apply Tools.wrapAxis_dp 0 size hsize ε hε bounds _
+    (fun l u => ⟨⟨"LaplaceBoundedDomain", ε / (size : ℝ), 0, varSens (pre ++ r :: post).length l u, 0,
+      ((u - l) * (u - l)) / 4, .osCsprng⟩, fun D => var (D.map (clip l u)), fun o => Transc.sqrt o⟩)
+    (fun l u => by
+      unfold stdPlan varPlan
+      rw [single_eq_oneCall, map_oneCall]; rfl)
+    (fun l u => rfl) (fun l u => Tools.measurable_sqrt) _ _ _ M hprob hM S hS
+  intro c _
+  simp only [column_replace]
+  have := Tools.var_sens (hb c) (column 0 c pre) (column 0 c post) (r.getD c 0) (r'.getD c 0)
+  simpa [column_length] using this
+
+theorem count_axis_tool_dp (size : Nat) (hsize : 0 < size) (ε : ℝ) (hε : 0 < ε) (bounds : Nat → ℝ × ℝ)
+    (pre post : List (List ℝ)) (r r' : List ℝ)
+    (M : MechCall ℝ → ℝ → Measure ℝ) (hprob : ∀ c a, IsProbabilityMeasure (M c a)) (hM : Tools.CountDP M)
+    (S : Set (List ℝ)) (hS : MeasurableSet S) :
+    (wrapAxis 0 size ε bounds (fun e _ _ => countNonzeroPlan (pre ++ r :: post).length e)).law M (pre ++ r :: post) S ≤
+      ENNReal.ofReal (Real.exp ε) *
+        (wrapAxis 0 size ε bounds (fun e _ _ => countNonzeroPlan (pre ++ r :: post).length e)).law M
+          (pre ++ r' :: post) S :=
+  Tools.countAxis_dp size hsize ε hε bounds _ pre post r r' M hprob hM S hS
+
+theorem count_axis_tool_dp_geometric (size : Nat) (hsize : 0 < size) (ε : ℝ) (hε : 0 < ε) (bounds : Nat → ℝ × ℝ)
+    (pre post : List (List ℝ)) (r r' : List ℝ) (S : Set (List ℝ)) (hS : MeasurableSet S) :
+    (wrapAxis 0 size ε bounds (fun e _ _ => countNonzeroPlan (pre ++ r :: post).length e)).law PM.geomKernel
+        (pre ++ r :: post) S ≤
+      ENNReal.ofReal (Real.exp ε) *
+        (wrapAxis 0 size ε bounds (fun e _ _ => countNonzeroPlan (pre ++ r :: post).length e)).law PM.geomKernel
+          (pre ++ r' :: post) S :=
+  count_axis_tool_dp size hsize ε hε bounds pre post r r' _ PM.geomKernel_isProb Tools.geomKernel_countDP S hS
+
+/-! ### histograms (`weights=None`): one `GeometricTruncated(ε, sensitivity 1)` per bin on the integer bin count —
+for every count mechanism (`Tools.CountDP`), in particular the geometric kernel -/
+
+/-- **the noisy bin counts of `histogram` / `histogram2d` / `histogramdd` are `2ε`-DP**, `ε`-DP when the record
+enters or leaves the range, and not affected at all when the record stays in its bin -/
+theorem hist_tool_dp (edges : List (List ℝ)) (ε maxsize : ℝ) (hε : 0 < ε) (pre post : List (WRow ℝ)) (r r' : WRow ℝ)
+    (M : MechCall ℝ → ℝ → Measure ℝ) (hprob : ∀ c a, IsProbabilityMeasure (M c a)) (hM : Tools.CountDP M)
+    (S : Set (List ℝ)) (hS : MeasurableSet S) :
+    let p := histCalls edges false ε maxsize
+    p.law M (pre ++ r :: post) S ≤ ENNReal.ofReal (Real.exp (ε * 2)) * p.law M (pre ++ r' :: post) S ∧
+    ((binOf edges r.x = none ∨ binOf edges r'.x = none) →
+      p.law M (pre ++ r :: post) S ≤ ENNReal.ofReal (Real.exp ε) * p.law M (pre ++ r' :: post) S) ∧
+    (binOf edges r.x = binOf edges r'.x → p.law M (pre ++ r :: post) S ≤ p.law M (pre ++ r' :: post) S) := by
+  intro p
+  obtain ⟨h2, h1, h0⟩ := Tools.histCalls_lossLe edges ε maxsize hε.le pre post r r'
+  refine ⟨Tools.histCalls_dp_count edges ε maxsize hε _ _ _ _ _ h2 M hprob hM S hS,
+    fun hn => Tools.histCalls_dp_count edges ε maxsize hε _ _ _ _ _ (h1 hn) M hprob hM S hS, fun hs => ?_⟩
+  have := Tools.histCalls_dp_count edges ε maxsize hε _ _ _ _ _ (h0 hs) M hprob hM S hS
+  simpa using this
+
+/-- … with the geometric kernel: no hypothesis on the mechanism left -/
+theorem hist_tool_dp_geometric (edges : List (List ℝ)) (ε maxsize : ℝ) (hε : 0 < ε) (pre post : List (WRow ℝ))
+    (r r' : WRow ℝ) (S : Set (List ℝ)) (hS : MeasurableSet S) :
+    let p := histCalls edges false ε maxsize
+    p.law PM.geomKernel (pre ++ r :: post) S ≤
+      ENNReal.ofReal (Real.exp (ε * 2)) * p.law PM.geomKernel (pre ++ r' :: post) S ∧
+    ((binOf edges r.x = none ∨ binOf edges r'.x = none) →
+      p.law PM.geomKernel (pre ++ r :: post) S ≤
+        ENNReal.ofReal (Real.exp ε) * p.law PM.geomKernel (pre ++ r' :: post) S) ∧
+    (binOf edges r.x = binOf edges r'.x →
+      p.law PM.geomKernel (pre ++ r :: post) S ≤ p.law PM.geomKernel (pre ++ r' :: post) S) :=
+  hist_tool_dp edges ε maxsize hε pre post r r' _ PM.geomKernel_isProb Tools.geomKernel_countDP S hS
+
+/-- **`histogram` (1-d, with or without `density`) is `2ε`-DP**, set-function semantics (`Plan.lawOn`: every set of
+releases, no measurability condition on the density post-processing) -/
+theorem histogram_tool_dp (edges : List ℝ) (density : Bool) (ε maxsize : ℝ) (hε : 0 < ε) (pre post : List (WRow ℝ))
+    (r r' : WRow ℝ) (M : MechCall ℝ → ℝ → Measure ℝ) (hM : Tools.CountDP M) (S : Set (List ℝ)) :
+    (histogramPlan edges false density ε maxsize).lawOn M (pre ++ r :: post) S ≤
+      ENNReal.ofReal (Real.exp (ε * 2)) * (histogramPlan edges false density ε maxsize).lawOn M (pre ++ r' :: post) S :=
+  Tools.histCalls_map_lawOn_dp_count _ [edges] ε maxsize hε _ _ _ _ _
+    (Tools.histCalls_lossLe [edges] ε maxsize hε.le pre post r r').1 M hM S
+
+/-- **`histogramdd` / `histogram2d` (with or without `density`) is `2ε`-DP**, set-function semantics -/
+theorem histogramdd_tool_dp (edges : List (List ℝ)) (density : Bool) (ε maxsize : ℝ) (hε : 0 < ε)
+    (pre post : List (WRow ℝ)) (r r' : WRow ℝ) (M : MechCall ℝ → ℝ → Measure ℝ) (hM : Tools.CountDP M)
+    (S : Set (List ℝ)) :
+    (histogramddPlan edges false density ε maxsize).lawOn M (pre ++ r :: post) S ≤
+      ENNReal.ofReal (Real.exp (ε * 2)) *
+        (histogramddPlan edges false density ε maxsize).lawOn M (pre ++ r' :: post) S :=
+  Tools.histCalls_map_lawOn_dp_count _ edges ε maxsize hε _ _ _ _ _
+    (Tools.histCalls_lossLe edges ε maxsize hε.le pre post r r').1 M hM S
+
+theorem histogramdd_tool_dp_geometric (edges : List (List ℝ)) (density : Bool) (ε maxsize : ℝ) (hε : 0 < ε)
+    (pre post : List (WRow ℝ)) (r r' : WRow ℝ) (S : Set (List ℝ)) :
+    (histogramddPlan edges false density ε maxsize).lawOn PM.geomKernel (pre ++ r :: post) S ≤
+      ENNReal.ofReal (Real.exp (ε * 2)) *
+        (histogramddPlan edges false density ε maxsize).lawOn PM.geomKernel (pre ++ r' :: post) S :=
+  histogramdd_tool_dp edges density ε maxsize hε pre post r r' _ Tools.geomKernel_countDP S
+
+/-- non-vacuity: one dimension, two bins, the record moves from the first bin to the second (the `2ε` case) -/
+example : binOf [[(0 : ℝ), 1, 2]] [(1 : ℝ) / 2] ≠ binOf [[(0 : ℝ), 1, 2]] [(3 : ℝ) / 2] ∧
+    binOf [[(0 : ℝ), 1, 2]] [(1 : ℝ) / 2] ≠ none ∧ binOf [[(0 : ℝ), 1, 2]] [(3 : ℝ) / 2] ≠ none := by
+  have h1 : binOf [[(0 : ℝ), 1, 2]] [(1 : ℝ) / 2] = some [0] := by
+    norm_num [binOf, binIdx, eqv, List.zipWith, List.filter]
+  have h2 : binOf [[(0 : ℝ), 1, 2]] [(3 : ℝ) / 2] = some [1] := by
+    norm_num [binOf, binIdx, eqv, List.zipWith, List.filter]
+  rw [h1, h2]; simp
+
+end ToolDP
 
 end DPL.C07
